@@ -260,6 +260,13 @@ func runCase(cs Case, st *stats) (key, expected, observed string) {
 			if got16 != want {
 				return fmt.Sprintf("contains16:%v", want), fmt.Sprintf("Contains(%s as 16-byte)=%v %s", b, want, after), fmt.Sprintf("%v", got16)
 			}
+			// a genuine IPv6 address that merely ends in the same four bytes is no IPv4 address at all:
+			// only the match-all range covers it
+			v6 := net.IP{0x20, 0x01, 0x0d, 0xb8, 0, 0, 0, 0, 0, 0, 0, 0, b[0], b[1], b[2], b[3]}
+			if got6 := f.Contains(v6); got6 != m.matchAll {
+				return fmt.Sprintf("contains-ipv6:%v", m.matchAll), fmt.Sprintf("Contains(%s, a genuine IPv6 address)=%v %s", v6, m.matchAll, after), fmt.Sprintf("%v", got6)
+			}
+			st.probes++
 		}
 		return "", "", ""
 	}
@@ -333,7 +340,7 @@ type mon struct{}
 func (mon) Name() string { return "ipfilter" }
 
 func (mon) Level(string) (string, string) {
-	return "exploration", "operation sequences (exhaustive over a 12-op alphabet up to length 4 (quick) / 5 (thorough), and over a 10-op alphabet of edge ranges (network address 0.0.0.0, top of the address space) up to length 3, replayed from empty and after 254/255/256 filler adds so that they run in list mode, across the list→map migration and in map mode; plus seeded random sequences over a small universe steered across the migration), every boundary address of every touched range probed in 4- and 16-byte form against a set-of-prefixes model; the package's other exported helpers (FirstIP/LastIP) are called between the operations, and in 1/8 (exhaustive) resp. 1/3 (random) of the sequences a second filter instance receives the same history shifted into another address space, each instance probed with both spaces against its own model; distinct_nontrivial = distinct (filler, sequence) pairs whose sequence changes the model at least once"
+	return "exploration", "operation sequences (exhaustive over a 12-op alphabet up to length 4 (quick) / 5 (thorough), and over a 10-op alphabet of edge ranges (network address 0.0.0.0, top of the address space) up to length 3, replayed from empty and after 254/255/256 filler adds so that they run in list mode, across the list→map migration and in map mode; plus seeded random sequences over a small universe steered across the migration), every boundary address of every touched range probed in 4- and 16-byte form (and as the tail of a genuine IPv6 address, which only 0.0.0.0/0 covers) against a set-of-prefixes model; the package's other exported helpers (FirstIP/LastIP) are called between the operations, and in 1/8 (exhaustive) resp. 1/3 (random) of the sequences a second filter instance receives the same history shifted into another address space, each instance probed with both spaces against its own model; distinct_nontrivial = distinct (filler, sequence) pairs whose sequence changes the model at least once"
 }
 
 func (mon) Assumptions(string) []string {
